@@ -24,6 +24,7 @@ type profile struct {
 	pcs                                            []int
 	finale                                         bool    // complete the exchange at the end (C01)
 	pWide                                          float64 // scripted prefix: many single-entry writers + one long chain merged into one log
+	pFault, pPin                                   float64 // appends/publications during a store outage; appends that ask for pinning
 }
 
 var baseProfile = profile{name: "base", minReps: 2, maxReps: 4, minOps: 8, maxOps: 30,
@@ -113,10 +114,21 @@ func (g *genState) next(h *histRun, i int) *hop {
 		case x < g.p.pIter+g.p.pSetID:
 			return &hop{Kind: "setid", R: rng.Intn(appendable), Ident: pick(rng, identNames)}
 		case x < g.p.pIter+g.p.pSetID+g.p.pPublish:
-			return &hop{Kind: "publish", R: rng.Intn(nr)}
+			o := &hop{Kind: "publish", R: rng.Intn(nr)}
+			if g.p.pFault > 0 && rng.Float64() < g.p.pFault {
+				o.Fault = true
+			}
+			return o
 		case x < g.p.pIter+g.p.pSetID+g.p.pPublish+0.5:
 			pc := pick(rng, g.p.pcs)
-			return &hop{Kind: "append", R: rng.Intn(appendable), Payload: fmt.Sprintf("p%d", rng.Intn(6)), PC: pc}
+			o := &hop{Kind: "append", R: rng.Intn(appendable), Payload: fmt.Sprintf("p%d", rng.Intn(6)), PC: pc}
+			if g.p.pPin > 0 && rng.Float64() < g.p.pPin {
+				o.Pin = true
+			}
+			if g.p.pFault > 0 && rng.Float64() < g.p.pFault {
+				o.Fault = true
+			}
+			return o
 		default:
 			r, src := rng.Intn(g.nReps), rng.Intn(nr)
 			if rng.Float64() < g.p.pNeutralJoin {
@@ -359,7 +371,7 @@ func runLogProp(cfg logRunCfg) func(seed int64, tier string, outDir string) *res
 		}
 		shapes := map[string]bool{}
 		perKey := map[string]int{}
-		totOps, totEntries, withTies, withForks, bounded, denied, panics, iters := 0, 0, 0, 0, 0, 0, 0, 0
+		totOps, totEntries, withTies, withForks, bounded, denied, panics, iters, faulted := 0, 0, 0, 0, 0, 0, 0, 0, 0
 		opKinds := map[string]int{}
 		for _, g := range gens {
 			h := &histRun{gen: g, w: newWorld()}
@@ -402,6 +414,7 @@ func runLogProp(cfg logRunCfg) func(seed int64, tier string, outDir string) *res
 			}
 			bounded += h.boundedJoins
 			denied += h.denied
+			faulted += h.faulted
 			panics += h.panics
 			if len(res.Samples) < 2 && nontrivial {
 				res.Samples = append(res.Samples, json.RawMessage(js))
@@ -428,6 +441,7 @@ func runLogProp(cfg logRunCfg) func(seed int64, tier string, outDir string) *res
 			}
 			if cfg.prop != "C06" {
 				runAliasScenarios(xr, na, st, xf)
+				runPartialJoinScenarios(xr, na, st, xf)
 			}
 			res.Stats["forged_logs_joined"] = st.forged
 			res.Stats["forged_logs_rejected"] = st.rejected
@@ -453,6 +467,7 @@ func runLogProp(cfg logRunCfg) func(seed int64, tier string, outDir string) *res
 		res.Stats["histories_with_forks"] = withForks
 		res.Stats["bounded_joins"] = bounded
 		res.Stats["denied_appends"] = denied
+		res.Stats["operations_during_store_outage"] = faulted
 		res.Stats["panics_observed"] = panics
 		res.Stats["iterator_ops"] = iters
 		res.Stats["op_kinds"] = opKinds
@@ -555,5 +570,7 @@ func init() {
 	p17.pPublish = 0.15
 	p17.pDenyLog = 0.3
 	p17.pShareIdent = 0.6
+	p17.pFault = 0.12
+	p17.pPin = 0.3
 	register("C17", runLogProp(logRunCfg{prop: "C17", profile: p17, nQuick: 150, nThorough: 3000, perShard: 12}))
 }
